@@ -477,11 +477,18 @@ pub struct EvalState<'a> {
     checked_vars: Vec<String>,
     // Current nesting depth of the expression being evaluated
     depth: usize,
+    // Number of variable lookups made so far evaluating the outermost expression
+    lookups: usize,
 }
 
 /// Maximum nesting (parentheses, function calls, unary minus, variable
 /// indirection) of an expression; bounds the parser's recursion.
 const EXPR_DEPTH_LIMIT: usize = 100;
+
+/// Maximum number of variable lookups while evaluating one expression. A variable's
+/// value is evaluated again at every reference, so a chain of variables each naming
+/// the previous one twice costs 2^n evaluations; this bounds it.
+const EXPR_LOOKUP_LIMIT: usize = 10_000;
 
 impl<'a> EvalState<'a> {
     fn new(
@@ -495,6 +502,7 @@ impl<'a> EvalState<'a> {
             context,
             checked_vars: Vec::from(checked_vars),
             depth: 0,
+            lookups: 0,
         }
     }
 
@@ -552,6 +560,12 @@ impl<'a> EvalState<'a> {
         if self.checked_vars.iter().contains(&String::from(v)) {
             return Err(SvgdxError::CircularRefError(v.to_owned()));
         }
+        self.lookups += 1;
+        if self.lookups > EXPR_LOOKUP_LIMIT {
+            return Err(SvgdxError::ParseError(format!(
+                "Expression needs more than {EXPR_LOOKUP_LIMIT} variable lookups"
+            )));
+        }
         self.checked_vars.push(v.to_string());
         let result = if let Some(inner) = self.context.get_var(v) {
             let tokens = tokenize(&inner)?;
@@ -562,7 +576,10 @@ impl<'a> EvalState<'a> {
                 // the value of a variable is evaluated in the middle of the current
                 // expression: its nesting adds to ours
                 es.depth = self.depth;
-                let e = expr_list(&mut es)?;
+                es.lookups = self.lookups;
+                let e = expr_list(&mut es);
+                self.lookups = es.lookups;
+                let e = e?;
                 if es.peek().is_none() {
                     Ok(e)
                 } else {
